@@ -381,6 +381,34 @@ theorem C10_tail_segment (w : List Char) : LangRe tailRe w := by
   have : LangRe tailRe (w ++ []) := .cons ⟨by intro c _; rfl, by simp, by simp⟩ .nil
   simpa using this
 
+/-- **C10_parse_param**: the parser really gives `{name}` the default language and `{name}*`
+(at the very end of the pattern) the tail language: for every name without braces and colon,
+`parse_param` returns the default regex `[^/]+` with the rest of the pattern untouched, or — iff
+the rest is exactly `*` — the tail regex `.*`, the tail flag, and nothing left. -/
+theorem C10_parse_param (name rest : List Char) (hn : plainName name) :
+    parseParam ('{' :: name ++ '}' :: rest) =
+      if rest = ['*'] then .ok ⟨name, tailRe, [], true⟩ else .ok ⟨name, defaultRe, rest, false⟩ :=
+  parseParam_plain name rest hn
+
+example : plainName ['i', 'd'] := by unfold plainName; decide
+
+/-- **C10_tail_whole**: a definition that ends in a tail segment (`…{name}*`, no suffix anchor)
+always matches to the very end of the path: the reported length is the whole path (the tail
+"captures the remaining path portion"). -/
+theorem C10_tail_whole (d : DynPat) (pre : List Seg) (n : Name)
+    (hd : d.segs = pre ++ [.var n tailRe]) (hs : d.suffix = .open) (isPrefix : Bool) (path : List Char)
+    (len : Nat) (h : (ResourceDef.mk isPrefix (.dynamic d) d.segs).findMatch path = some len) :
+    len = blen path := by
+  simp only [ResourceDef.findMatch] at h
+  cases hc : d.captures path with
+  | none => rw [hc] at h; cases h
+  | some r =>
+    obtain ⟨len', caps⟩ := r
+    rw [hc] at h
+    simp only [Option.map_some, Option.some.injEq] at h
+    subst h
+    exact captures_tail_whole d pre n hd hs path _ caps hc
+
 /-- **C10_captures_exact** (2): `Path::get` returns exactly the matched substrings (never a
 slicing panic), and the static texts concatenated with the values are the matched prefix. -/
 theorem C10_captures_exact (d : DynPat) (isPrefix : Bool) (hwf : DynWF d) (path : List Char)
